@@ -176,7 +176,10 @@ WRAP:
 	for 1<<uint(t.Minute())&s.Minute == 0 {
 		if !added {
 			added = true
-			t = t.Truncate(time.Minute)
+			// Drop the seconds of the wall clock reading. (Time.Truncate rounds
+			// the absolute time, which is not the start of the local minute in
+			// a zone whose UTC offset is not a whole number of minutes.)
+			t = t.Add(-time.Duration(t.Second()) * time.Second)
 		}
 		t = t.Add(1 * time.Minute)
 
